@@ -275,10 +275,17 @@ Section XmlDeser.
                              match find_field key fs with
                              | None => let! names := go r in Ret (key :: names)
                              | Some f =>
-                                 let t := match f_kind f, f_ty f with
-                                          | KAttr, TLeaf lk => TAttr lk | _, t => t end in
-                                 let! _ := from_element k t (f_nillable f) in
-                                 let! names := go r in Ret (key :: names)
+                                 (* a child element named like an XmlAttribute member is no occurrence
+                                    of it: skipped, neither counted nor decoded.  Without that guard it
+                                    is decoded as the attribute's type and counted *)
+                                 let decode :=
+                                   let t := match f_kind f, f_ty f with
+                                            | KAttr, TLeaf lk => TAttr lk | _, t => t end in
+                                   let! _ := from_element k t (f_nillable f) in
+                                   let! names := go r in Ret (key :: names) in
+                                 guard_skip g_xml_child_attr_member
+                                   (match f_kind f with KAttr => true | KElem => false end)
+                                   (go r) decode decode
                              end
                          end
                      end) kids
